@@ -43,10 +43,14 @@ class Node(object):
     file descriptors and descriptor numbers are only ever taken by the library.
     """
 
-    def __init__(self, target_factory, name=None):
+    def __init__(self, target_factory, name=None, symlink=False):
         global _counter
         _counter += 1
         self.path = os.path.join(root(), name or "node%d" % _counter)
+        # with symlink=True the device path is a symbolic link (like /dev/disk/by-id/...) to the node that gets replaced
+        self.real = self.path + ".real" if symlink else self.path
+        if symlink:
+            os.symlink(self.real, self.path)
         self.target_factory = target_factory
         self.generation = 0
         self.targets = {}          # generation -> Target
@@ -63,7 +67,7 @@ class Node(object):
         st = os.fstat(fd)
         os.close(fd)
         os.link(tmp, self.path + ".keep%d" % self.generation)
-        os.rename(tmp, self.path)
+        os.rename(tmp, self.real)
         tgt = self.target_factory(self.generation)
         self.targets[self.generation] = tgt
         self.inodes[self.generation] = st.st_ino
@@ -74,7 +78,7 @@ class Node(object):
 
     def unplug(self):
         if self.present:
-            os.unlink(self.path)
+            os.unlink(self.real)
             self.present = False
 
     def current_ino(self):
@@ -106,9 +110,10 @@ class Node(object):
                 os.unlink(self.path + ".keep%d" % g)
             except OSError:
                 pass
-        try:
-            os.unlink(self.path)
-        except OSError:
-            pass
+        for p in {self.path, self.real}:
+            try:
+                os.unlink(p)
+            except OSError:
+                pass
         for ino in self.inodes.values():
             registry.by_inode.pop(ino, None)
